@@ -1115,6 +1115,8 @@ class Interp(object):
                 return And(*[Iff(x, y) for x, y in zip(ca.bits, cb.bits)])
             if hasattr(ca, 'cell_eq'):
                 return ca.cell_eq(self, cb)
+            if isinstance(ca, PObj) and isinstance(cb, PObj):
+                return False      # plain objects compare by identity (no __eq__ in the modelled classes), and the addresses differ
             raise Undecided('== on containers %r %r' % (ca, cb))
         if isinstance(a, Ref) or isinstance(b, Ref):
             r, o = (a, b) if isinstance(a, Ref) else (b, a)
